@@ -15,7 +15,17 @@ def run(cmd, cwd=None):
     p = subprocess.run(cmd, shell=True, cwd=cwd, env=ENV, stdout=subprocess.PIPE, stderr=subprocess.STDOUT, text=True, errors="replace")
     return p.returncode, p.stdout
 
+def trim_cache():
+    # every patched tree rebuilds the library for every variant: keep the build cache from filling the disk
+    rc, out = run("du -sm $(go env GOCACHE) | cut -f1")
+    try:
+        if int(out.strip().splitlines()[-1]) > 40000:
+            run("go clean -cache")
+    except Exception:
+        pass
+
 def check(prop):
+    trim_cache()
     rc, out = run(f"./check {prop} quick", cwd=ROOT)
     dets = {}
     for m in re.finditer(r"^\s+detector=(\S+) keys=(map\[[^\]]*\])", out, re.M):
